@@ -1026,12 +1026,21 @@ def _static_region(sim, inst, node):
 def drivers(sim):
   """-> dict with 'multi' [(inst path, var, elem, bitmask, [driver ids])], 'undriven' [(inst path, var)], 'analysed' count,
   'unresolved' count (dynamic selects, not judged)"""
-  multi, undriven = [], []
+  multi, undriven, elem_undriven = [], [], []
+  driver_reads = {}      # (inst path, var) -> [set of variable names a driver of var reads]
   analysed = unresolved = 0
   for inst in sim.insts:
     drv = {}      # (var, elem) -> list of (mask, driver id, static)
     readvars = set()
+    readelems = {}      # unpacked-array variable -> set of statically indexed elements that are read
     looplocals = set()
+    def note_reads(ids):
+      for x in ids:
+        readvars.add(x[1])
+        if x[1] in inst.vars and inst.vars[x[1]].dims and x[2]:
+          r_ = _static_region(sim, inst, x)
+          if r_ is not None and r_[4] and len(r_[1]) == len(inst.vars[x[1]].dims):
+            readelems.setdefault(x[1], set()).add(tuple(r_[1]))
     def add(node, did):
       nonlocal unresolved
       r = _static_region(sim, inst, node)
@@ -1046,12 +1055,14 @@ def drivers(sim):
     for pi, (kind, payload) in enumerate(inst.procs):
       if kind == "assign":
         add(payload[1], f"assign#{pi}")
-        for x in _expr_ids(payload[2], []): readvars.add(x[1])
+        note_reads(_expr_ids(payload[2], []))
+        driver_reads.setdefault((inst.path, payload[1][1]), []).append({x[1] for x in _expr_ids(payload[2], [])})
       elif kind in ("comb", "ff"):
         rd, wr, lv = [], [], set()
         _stmt_rw(payload[2], rd, wr, lv)
         looplocals |= lv
-        for x in rd: readvars.add(x[1])
+        note_reads(rd)
+        for node in wr: driver_reads.setdefault((inst.path, node[1]), []).append({x[1] for x in rd})
         for node in wr:
           if node[1] in lv and node[1] not in inst.vars: continue
           add(node, f"{'always_comb' if kind == 'comb' else 'always_ff'}:{payload[1]}")
@@ -1059,7 +1070,7 @@ def drivers(sim):
         child, pn, e = payload
         add(e, f"inst-output:{child.path.rsplit('.', 1)[-1]}.{pn}")
       elif kind == "bind_in":
-        for x in _expr_ids(payload[2], []): readvars.add(x[1])
+        note_reads(_expr_ids(payload[2], []))
     for name, v in inst.vars.items():
       if v.kind == "const": continue
       entries = [(k, lst) for k, lst in drv.items() if k[0] == name]
@@ -1088,4 +1099,10 @@ def drivers(sim):
               multi.append((inst.path, name, a[0], a[1] & b[1], list(key)))
       if not flat and not external and (name in readvars or v.kind == "output") and name not in looplocals:
         undriven.append((inst.path, name))
-  return {"multi": multi, "undriven": undriven, "analysed": analysed, "unresolved": unresolved}
+      elif flat and not external and v.dims and name in readelems and all(f[3] and f[0] is not None for f in flat):
+        # an unpacked array with drivers on SOME of its elements (all statically indexed): an element that is read and that no
+        # driver covers is undriven, too
+        for el in sorted(readelems[name]):
+          if not any(tuple(el[:len(f[0])]) == tuple(f[0]) for f in flat):
+            elem_undriven.append((inst.path, name, el)); break
+  return {"multi": multi, "undriven": undriven, "analysed": analysed, "unresolved": unresolved, "elem_undriven": elem_undriven, "driver_reads": driver_reads}
